@@ -168,6 +168,20 @@ class SArr(Model):
     def py_setitem(self, I, idx, val):
         old = self.fn
         n = self.length
+        if self.dtype == 'int':
+            # assignment into an integer array truncates towards zero
+            def trunc(x):
+                if isinstance(x, int) or (isinstance(x, z3.ArithRef) and x.is_int()):
+                    return x
+                xr = to_real(x)
+                return z3.If(xr >= 0, z3.ToInt(xr), -z3.ToInt(-xr))
+            if isinstance(val, SArr):
+                src = val
+                val = SArr(src.length, lambda k: trunc(src.at(k)), kind=src.kind)
+            elif is_num(val):
+                val = trunc(val)
+            else:
+                raise Unsupported('assignment of a non-number into an integer array')
         if isinstance(idx, slice):
             if idx.step not in (None, 1):
                 raise Unsupported('slice with step')
@@ -383,6 +397,10 @@ def _enum_ord(v):
         return v.cls, z3.IntVal(v.index)
     if isinstance(v, SymEnum):
         return v.cls, v.ord
+    from ..values import NPStr
+    if isinstance(v, NPStr) and v.member is not None:
+        # numpy strings made from members of one string enum: a conditional element is represented like np.select's
+        return v.member.cls, z3.IntVal(v.member.index)
     return None
 
 
